@@ -32,6 +32,7 @@ type Scenario struct {
 	Stream []string `json:"stream"`
 	Cuts   []int    `json:"cuts"`
 	ErrAt  int      `json:"errAt"`
+	Pause  int      `json:"pause"` // ms of silence after every write call
 }
 
 type Rec struct {
@@ -39,6 +40,7 @@ type Rec struct {
 	Stream []string `json:"stream"`
 	Cuts   []int    `json:"cuts"`
 	ErrAt  int      `json:"errAt"`
+	Pause  int      `json:"pause"`
 	Calls  [][]int  `json:"calls"`
 	Ret    string   `json:"ret"`
 	Same   bool     `json:"same"`
@@ -116,7 +118,7 @@ func runOne(dir string, id int, sc Scenario, seed int64) Rec {
 	if r.Intn(4) == 0 {
 		delim = []byte{0, ';', 0xff}[r.Intn(3)]
 	}
-	rec := Rec{ID: id, Stream: sc.Stream, Cuts: sc.Cuts, ErrAt: sc.ErrAt, Calls: [][]int{}, Delim: int(delim)}
+	rec := Rec{ID: id, Stream: sc.Stream, Cuts: sc.Cuts, ErrAt: sc.ErrAt, Pause: sc.Pause, Calls: [][]int{}, Delim: int(delim)}
 	if rec.Cuts == nil {
 		rec.Cuts = []int{}
 	}
@@ -214,6 +216,9 @@ func runOne(dir string, id int, sc Scenario, seed int64) Rec {
 		}
 		if finished {
 			break
+		}
+		if sc.Pause > 0 && b < len(sc.Stream) {
+			time.Sleep(time.Duration(sc.Pause) * time.Millisecond)
 		}
 	}
 	w.Close()
